@@ -58,7 +58,7 @@ def gen_thread_op(rg, fresh, kind, c, readers=False, mut_only=True, attr=False):
         keys = sorted(c) + ["x", "y"]
         k = keys[rg.randrange(len(keys))]
         if readers:
-            name = rg.choice(["getitem", "get", "len", "iter", "call", "eq", "contains", "keys", "values", "items"] + (["getattr", "getattr"] if attr else []))
+            name = rg.choice(["getitem", "get", "len", "iter", "list", "call", "eq", "contains", "keys", "values", "items"] + (["getattr", "getattr"] if attr else []))
             if name == "getattr":
                 return name, ([k] if rg.random() < 0.5 else [k, fresh.int()])
             if name in ("getitem", "get", "contains"):
@@ -82,8 +82,7 @@ def gen_thread_op(rg, fresh, kind, c, readers=False, mut_only=True, attr=False):
         return name, []
     n = len(c)
     if readers:
-        # (list.index is a multi-step mixin built on repeated __getitem__ and is not among the reads C14 lists)
-        name = rg.choice(["getitem", "len", "iter", "call", "eq", "contains", "reversed", "count"])
+        name = rg.choice(["getitem", "len", "iter", "list", "call", "eq", "contains", "reversed", "count", "index"])
         if name == "getitem":
             return name, [rg.randrange(-n, n) if n else 0]
         if name == "eq":
@@ -151,11 +150,13 @@ def execute(cfg, threads_prog, strat_spec, sched_seed, pre_steps, ctx_spec=None,
         history = []
         SC = ns.SyncedCollection
 
+        handle_nodes = [x.node if x is not None else None for x in w.handles]
+
         def make_program(ti, ops):
             def program(t):
                 for oi, op in enumerate(ops):
                     h = w.handles[op["h"]]
-                    args = M.dec(op["args"], None)
+                    args = M.dec(op["args"], handle_nodes)   # {"$handle": i} = the live synced node of handle i
                     rec = {"t": ti, "i": oi, "h": op["h"], "name": op["name"], "args": op["args"], "inv": sched.step}
                     if op.get("rejected"):
                         rec["rejected"] = True
@@ -234,7 +235,16 @@ def check_linearizable(out, per_file=False):
         target = get_path(s[rid], path)
         if kind_of(target) != kind:
             return False, s
-        margs = M.dec(op["args"], None)
+        class _Operands:      # {"$handle": i} operand = the model's value of handle i AT THIS POINT of the linearisation
+            def __getitem__(self, i):
+                r2, p2, k2 = handles[i]
+                if not has_path(s[r2], p2):
+                    raise LookupError(i)
+                return deep(get_path(s[r2], p2))
+        try:
+            margs = M.dec(op["args"], _Operands())
+        except LookupError:
+            return False, s
         name = op["name"]
         if op.get("rejected"):
             # forbidden input: must be rejected with TypeError/ValueError at any point, changing nothing
@@ -269,3 +279,41 @@ def describe_history(out):
         lines.append(f"T{rec['t']} h{rec['h']} {rec['name']}{jsonable(rec['args'])} [{rec['inv']},{rec['ret']}] -> "
                      + (f"raised {r}" if r else repr(jsonable(rec.get('res')))))
     return "; ".join(lines)
+
+
+def witness_replay(run_payload, payload, timeout, budget=800):
+    """Replay the witness of an open finding.  The stored schedule is tried first; a schedule is tied to the exact
+    code shape (a forced choice list counts library lines), so after a harmless change of the library it may no longer
+    hit the window.  Then a bounded, deterministic search over schedules of THE SAME programs decides whether the
+    finding is still there: single pre-emptions at every k (each thread first), then seeded random/PCT schedules."""
+    from ..core.runner import run_isolated
+    out, v = run_isolated(run_payload, (payload,), timeout=timeout)
+    if v or not payload.get("witness_search"):
+        return v
+    want = payload.get("witness_kind")
+    nthreads = len(payload["progs"])
+    names = [f"T{x}" for x in range(nthreads)]
+    tried = 0
+    pts = out.get("points", {}) if isinstance(out, dict) else {}
+    for first in names:
+        order = [first] + [n for n in names if n != first]
+        for k in range(0, min(pts.get(first, 400), 1500) + 2):
+            p = dict(payload, strat={"kind": "single", "first": first, "k": k, "order": order})
+            out2, v2 = run_isolated(run_payload, (p,), timeout=timeout)
+            tried += 1
+            if v2 and (want is None or v2["kind"] == want):
+                return v2
+            if tried >= budget:
+                return None
+    i = 0
+    while tried < budget:
+        rs = stream("witness", payload.get("sched_seed"), i)
+        r = rs.random()
+        strat = {"kind": "random", "p": rs.choice([0.02, 0.1, 0.3])} if r < 0.6 else {"kind": "pct", "d": rs.choice([1, 2, 3]), "est": rs.choice([150, 400, 800])}
+        p = dict(payload, strat=strat, sched_seed=f"witness/{i}")
+        out2, v2 = run_isolated(run_payload, (p,), timeout=timeout)
+        tried += 1
+        i += 1
+        if v2 and (want is None or v2["kind"] == want):
+            return v2
+    return None
